@@ -31,6 +31,7 @@ def same_mod_idx(a, b):
 
 
 def run(ctx):
+    ctx.no_watchdog()   # this check runs the implementation in worker processes / under its own alarms
     rng = ctx.rng
     nworlds = (14 if ctx.tier == "quick" else 120) * ctx.escalate
     ops = [o for o in OPS if o not in SKIP]
